@@ -18,7 +18,7 @@ from vf.oracles import cbor_walk as cw
 from vf.oracles import cose_bpsec as cb
 
 PROPERTY_ID = 'C03'
-RULE = ('bundles (0-2 extension blocks, payload 0..300 octets) x kinds COSE_Mac0 HMAC-256/384/512 and COSE_Sign1 ES256 (x5chain, or '
+RULE = ('bundles (0-2 extension blocks, payload 0..300 octets; one or two targets per integrity block, the payload first or last) x kinds COSE_Mac0 HMAC-256/384/512 and COSE_Sign1 ES256 (x5chain, or '
         'x5t with a stored chain) produced by the real source agent with its default AAD scope, and BIBs built by the oracle with '
         'scopes that add other blocks\' metadata / data, the security block itself and additional protected parameters; '
         'mutations: EVERY single-bit flip of the encoding for MAC bundles <= 256 octets (sampled for larger / signed ones) and '
@@ -34,15 +34,15 @@ ASSUMPTIONS = [
 DECIDING = ['bp.app.bpsec:CoseContext.apply_bib', 'bp.app.bpsec:CoseContext.verify_bib', 'bp.app.bpsec:CoseContext.verify_bib_target',
             'bp.app.bpsec:CoseSecOpCtx.get_external_aad', 'bp.app.bpsec:CoseSecOpCtx.decode_msg', 'bp.app.bpsec:CoseContext._get_cose_key']
 REQUIRED_OBS = ['agent_bibs_confirmed', 'mutants_expect_reject', 'mutants_expect_accept', 'verify_fail_seen', 'verify_ok_seen',
-                'sign1_bundles', 'oracle_scope_bibs', 'wrong_key_runs']
+                'sign1_bundles', 'oracle_scope_bibs', 'wrong_key_runs', 'multi_target_bibs']
 
 KINDS = ['mac0-256', 'mac0-384', 'mac0-512', 'sign1']  # 'sign1-x5t': upstream pycose 1.1.0 X5T.encode() is not CBOR-encodable, the source raises
 
 
-def base_bundle(rng, plen, next_=0, crc=0, seq=1):
+def base_bundle(rng, plen, next_=0, crc=0, seq=1, force_types=()):
     blocks = []
     for idx in range(next_):
-        btype = rng.choice([10, 7, 192])
+        btype = force_types[idx] if idx < len(force_types) else rng.choice([10, 7, 192])
         data = cw.enc([30, 2]) if btype == 10 else (cw.enc(77) if btype == 7 else bytes(rng.getrandbits(8) for _ in range(rng.choice([0, 4, 20]))))
         blocks.append(dict(type=btype, num=5 + idx * 2, flags=rng.choice([0, 1]), crc_type=crc, data=data, crc=None))
     blocks.append(dict(type=1, num=1, flags=0, crc_type=crc, data=bytes(((pos * 29) ^ seq ^ 0x17) & 0xFF for pos in range(plen)), crc=None))
@@ -51,14 +51,14 @@ def base_bundle(rng, plen, next_=0, crc=0, seq=1):
     return dict(primary=pri, blocks=blocks)
 
 
-def produce(kind, bundle):
+def produce(kind, bundle, target_types=(1,)):
     ''' Let a real source agent protect the bundle.  :return: encoded bytes or None '''
     from vf.world.sim import Sim
     from vf import sec_harness as sh
     from vf.gen import bundles as gen
     from bp.util import BundleContainer
     sim = Sim(0, 'eager')
-    src = sh.source_node(sim, 'sign1' if kind.startswith('sign1') else kind, include_chain=(kind != 'sign1-x5t'))
+    src = sh.source_node(sim, 'sign1' if kind.startswith('sign1') else kind, include_chain=(kind != 'sign1-x5t'), target_types=target_types)
     src.send(BundleContainer(gen.to_real(bundle)))
     sim.settle(5000)
     outs = src.cl.datas()
@@ -247,6 +247,16 @@ def field_mutants(data, rng, sec_type=11):
     emit('target data first octet', lambda w: target(w).update(data=bytes([target(w)['data'][0] ^ 1]) + target(w)['data'][1:]) if target(w)['data'] else target(w).update(data=b'\x00'))
     emit('target data appended octet', lambda w: target(w).update(data=target(w)['data'] + b'\x00'))
     emit('target block flags', lambda w: target(w).update(flags=target(w)['flags'] ^ 1))
+    try:
+        tnums = cb.parse_asb(bib(dec)['data'])['targets']
+    except Exception:  # pylint: disable=broad-except
+        tnums = []
+    for tnum in tnums:
+        if tnum != 1:
+            emit('data of target block %d (one of %d targets)' % (tnum, len(tnums)),
+                 lambda w, tnum=tnum: [b.update(data=b['data'] + b'\x01') for b in w['blocks'] if b['num'] == tnum])
+            emit('flags of target block %d (one of %d targets)' % (tnum, len(tnums)),
+                 lambda w, tnum=tnum: [b.update(flags=b['flags'] ^ 2) for b in w['blocks'] if b['num'] == tnum])
     emit('target CRC type (not covered)', lambda w: target(w).update(crc_type=(target(w)['crc_type'] + 1) % 3))
 
     def edit_asb(w, func):
@@ -277,7 +287,7 @@ def field_mutants(data, rng, sec_type=11):
     emit('tag / signature', lambda w: edit_asb(w, lambda a: flip_in_result(a, 3)))
     emit('security block flags (not in default scope)', lambda w: bib(w).update(flags=bib(w)['flags'] ^ 1))
     for blk in dec['blocks']:
-        if blk['type'] not in (1, sec_type):
+        if blk['type'] not in (1, sec_type) and blk['num'] not in tnums:
             num = blk['num']
             emit('out-of-scope block %d data' % num, lambda w, num=num: [b.update(data=b['data'] + b'\x01') for b in w['blocks'] if b['num'] == num])
             emit('out-of-scope block %d flags' % num, lambda w, num=num: [b.update(flags=b['flags'] ^ 2) for b in w['blocks'] if b['num'] == num])
@@ -285,8 +295,9 @@ def field_mutants(data, rng, sec_type=11):
     return out
 
 
-def oracle_bib_bundle(rng, scope, addl_protected=None, crc=0, seq=5):
-    ''' A bundle whose BIB (COSE_Mac0, HMAC-256) is built entirely by the oracle with the given AAD scope. '''
+def oracle_bib_bundle(rng, scope, addl_protected=None, crc=0, seq=5, targets='payload'):
+    ''' A bundle whose BIB (COSE_Mac0, HMAC-256) is built entirely by the oracle with the given AAD scope.
+    targets: 'payload' | 'payload-first' | 'payload-last' (two targets: the payload and the second extension block) '''
     from vf import sec_harness as sh
     bundle = base_bundle(rng, rng.choice([1, 30, 200]), next_=2, crc=crc, seq=seq)
     nums = [blk['num'] for blk in bundle['blocks'] if blk['type'] != 1]
@@ -301,11 +312,15 @@ def oracle_bib_bundle(rng, scope, addl_protected=None, crc=0, seq=5):
         params.append((3, addl))
     sec = dict(type=11, num=3, flags=0, crc_type=crc, data=b'', crc=None)
     bundle['blocks'].insert(0, sec)
-    tgt = bpv7.payload_of(bundle)
+    tnums = {'payload': [1], 'payload-first': [1, nums[1]], 'payload-last': [nums[1], 1]}[targets]
+    by_num = {blk['num']: blk for blk in bundle['blocks']}
     source_item = bpv7.eid_to_item(sh.SRC_NODE)
-    ext_aad = cb.external_aad(bundle, sec, tgt, scope, addl, source_item)
-    result = cb.make_mac0_result(5, b'mk', sh.MAC_KEY, ext_aad, tgt['data'])
-    sec['data'] = cb.encode_asb(dict(targets=[1], context_id=3, flags=1, source=sh.SRC_NODE, params=params, results=[[result]]))
+    results = []
+    for tnum in tnums:
+        tgt = by_num[tnum]
+        ext_aad = cb.external_aad(bundle, sec, tgt, scope, addl, source_item)
+        results.append([cb.make_mac0_result(5, b'mk', sh.MAC_KEY, ext_aad, tgt['data'])])
+    sec['data'] = cb.encode_asb(dict(targets=tnums, context_id=3, flags=1, source=sh.SRC_NODE, params=params, results=results))
     return bpv7.encode(bundle), nums
 
 
@@ -320,11 +335,20 @@ def cases(tier, seed):
                             limit=None if kind.startswith('mac0') else (1500 if thorough else 260)))
             out.append(dict(id='fields-%s-%d' % (kind, rep), kind='fields', cose=kind, seed=seed * 103 + idx))
             idx += 1
+    for kind in ('mac0-256', 'sign1'):
+        for rep in range(6 if thorough else 1):
+            out.append(dict(id='multi-flips-%s-%d' % (kind, rep), kind='flips', cose=kind, seed=seed * 109 + idx, multi=True,
+                            limit=(None if thorough else 2500) if kind.startswith('mac0') else (1500 if thorough else 260)))
+            out.append(dict(id='multi-fields-%s-%d' % (kind, rep), kind='fields', cose=kind, seed=seed * 113 + idx, multi=True))
+            idx += 1
     scopes = [{0: 1, -1: 1}, {0: 1, -1: 1, -2: 1}, {-1: 1}, {0: 1, -1: 1, 'other': 1}, {0: 1, -1: 1, 'other': 3}, {0: 1, -1: 1, 'other': 2, -2: 1}]
     for sidx, scope in enumerate(scopes):
         for rep in range(4 if thorough else 1):
             out.append(dict(id='scope-%d-%d' % (sidx, rep), kind='scope', scope=[[k, v] for k, v in scope.items()], seed=seed * 107 + sidx * 10 + rep,
-                            addl=(rep % 2 == 1)))
+                            addl=(rep % 2 == 1), targets='payload'))
+        for targets in ('payload-first', 'payload-last'):
+            out.append(dict(id='scope-%d-%s' % (sidx, targets), kind='scope', scope=[[k, v] for k, v in scope.items()], seed=seed * 127 + sidx,
+                            addl=False, targets=targets))
     out.append(dict(id='keys', kind='keys', seed=seed))
     return out
 
@@ -332,7 +356,7 @@ def cases(tier, seed):
 def run_case(case):
     from vf import sec_harness as sh
     obs = dict(agent_bibs_confirmed=0, mutants_expect_reject=0, mutants_expect_accept=0, verify_fail_seen=0, verify_ok_seen=0,
-               sign1_bundles=0, oracle_scope_bibs=0, wrong_key_runs=0, mutants_no_security_block=0, accepted_but_not_delivered=0, mutants_structural_no_obligation=0)
+               sign1_bundles=0, oracle_scope_bibs=0, wrong_key_runs=0, multi_target_bibs=0, mutants_no_security_block=0, accepted_but_not_delivered=0, mutants_structural_no_obligation=0)
     rng = random.Random(case['seed'])
     violations = []
     classes = set()
@@ -352,9 +376,11 @@ def run_case(case):
         kind = case['kind']
         if kind in ('flips', 'fields'):
             cose = case['cose']
+            multi = bool(case.get('multi'))
             bundle = base_bundle(rng, rng.choice([0, 1, 24, 60]) if kind == 'flips' else rng.choice([5, 100, 300]),
-                                 next_=rng.choice([0, 1, 2]), crc=0 if kind == 'flips' else rng.choice([0, 1, 2]), seq=rng.randrange(1, 1000))
-            data = produce(cose, bundle)
+                                 next_=rng.choice([1, 2]) if multi else rng.choice([0, 1, 2]), crc=0 if kind == 'flips' else rng.choice([0, 1, 2]),
+                                 seq=rng.randrange(1, 1000), force_types=(192,) if multi else ())
+            data = produce(cose, bundle, target_types=(1, 192) if multi else (1,))
             if data is None:
                 return dict(verdict='inconclusive', nontrivial=False, cls='x', obs=obs, violations=[],
                             inconclusive_reason='source agent produced no single output for %s' % cose)
@@ -370,6 +396,10 @@ def run_case(case):
                     cose, log, err))], data, 'unmodified')
             else:
                 obs['agent_bibs_confirmed'] += 1
+                if multi:
+                    dec0, _p = bpv7.decode(data)
+                    if len(cb.parse_asb(next(blk for blk in dec0['blocks'] if blk['type'] == 11)['data'])['targets']) >= 2:
+                        obs['multi_target_bibs'] += 1
                 note([], data, 'unmodified %s' % cose)
                 if kind == 'flips':
                     covered, outside = covered_spans(data)
@@ -381,7 +411,10 @@ def run_case(case):
         elif kind == 'scope':
             scope = {(key if key == 'other' else int(key)): val for key, val in case['scope']}
             addl = {99: 7} if case['addl'] else None
-            data, nums = oracle_bib_bundle(rng, scope, addl_protected=None if not addl else {5: b'\x01' * 12}, crc=rng.choice([0, 2]), seq=case['seed'] % 900 + 1)
+            data, nums = oracle_bib_bundle(rng, scope, addl_protected=None if not addl else {5: b'\x01' * 12}, crc=rng.choice([0, 2]), seq=case['seed'] % 900 + 1,
+                                            targets=case.get('targets', 'payload'))
+            if case.get('targets', 'payload') != 'payload':
+                obs['multi_target_bibs'] += 1
             obs['oracle_scope_bibs'] += 1
             verdict, why = cb.verify_bundle(data, sh.oracle_keys('all'))
             assert verdict == 'ok', (verdict, why)
